@@ -1,4 +1,9 @@
-"""C19 — DDEHistory returns the piecewise-linear interpolant of what it was given (DESIGN §4 C19)."""
+"""C19 — DDEHistory returns the piecewise-linear interpolant of what it was given (DESIGN §4 C19).
+
+All rules work on *normalised* expressions (engine.util.normalise): local single-definition aliases (`row = self._n`,
+`time_stamps = self._t`) and one-line private helpers (`self._allocate(...)` -> `np.empty(...)`) are inlined first, so that
+the rules see roles (the row counter, the row buffer, the time list) instead of local names.
+"""
 from __future__ import annotations
 
 import ast
@@ -7,10 +12,8 @@ import sympy as sp
 
 from engine import AnalysisError
 from engine.srcmodel import walk_shallow, norm, parent, dotted
-from engine.util import (is_attr_of, enumerate_paths, get_method, header_nodes, stmt_calls, call_name,
-                         single_def_value, contains)
+from engine.util import (is_attr_of, enumerate_paths, get_method, stmt_calls, call_name, contains, normalise)
 from engine.cfg import stmt_of
-from engine.dataflow import assigned_value
 from engine import symx
 
 PROPERTY = "C19"
@@ -18,19 +21,22 @@ REL = "pyrates/backend/base/base_backend.py"
 CLS = "DDEHistory"
 
 EXPLANATION = (
-    "Decides structural necessary conditions of C19 on class DDEHistory (pyrates/backend/base/base_backend.py): "
+    "Decides structural necessary conditions of C19 on class DDEHistory (pyrates/backend/base/base_backend.py), on expressions "
+    "normalised by inlining local aliases and one-line private helpers: "
     "R1 the caller's arrays never escape into the object by reference (only element stores into a buffer this class "
-    "allocated); R2 on every non-raising path of update() the time list, the row buffer and the row counter advance "
-    "exactly once and in a consistent order; R3 the row store is dominated by the capacity test and the full+bounded "
-    "branch can only raise, the full+growable branch passes _grow(); R4 _grow() enlarges by an integer factor >= 2, "
+    "allocated); R2 on every non-raising path of update() (symbolic execution of the row counter along each path) exactly one time "
+    "is appended, exactly one row is stored at the pre-update counter and the counter ends one higher; R3 a path that found the "
+    "buffer full reaches the row store only through _grow(), _grow() is reached only when the history is growable, a full bounded "
+    "history has a raising path, and the flag is true exactly when max_steps is None; R4 _grow() enlarges by an integer factor >= 2, "
     "copies the valid rows before re-binding and keeps dtype/trailing shape; R5 __call__ clamps with the recorded first/"
     "last time and otherwise returns an expression that normalises (sympy, exact) to y[i]+(t-t_i)/(t_{i+1}-t_i)*(y[i+1]-y[i]) "
-    "with i = bisect_right(times, t) - 1.  NOT decided: floating-point equality at t = t_i, behaviour for non-increasing "
-    "update times, numpy's copy semantics of element assignment (trusted)."
+    "with i = bisect_right(times, t) - 1; R6 the recorded time is the update's t, the initial record is (t0, y0, n=1).  "
+    "NOT decided: floating-point equality at t = t_i, behaviour for non-increasing update times, numpy's copy semantics of element "
+    "assignment (trusted)."
 )
-RULE_TEXT = ("one obligation per (rule, construct): paths of update() enumerated exhaustively (acyclic CFG); escape analysis "
-             "over every load of the data parameters; algebraic normal form of the interpolation return. Non-trivial = needed a "
-             "path, dominance, escape or algebra argument (not a mere presence test).")
+RULE_TEXT = ("one obligation per (rule, construct): paths of update() enumerated exhaustively (acyclic CFG) and executed symbolically; "
+             "escape analysis over every load of the data parameters; algebraic normal form of the interpolation return. Non-trivial = "
+             "needed a path, dominance, escape or algebra argument (not a mere presence test).")
 ASSUMPTIONS = ["numpy element/slice assignment `buf[i] = y` copies the values of y into buf (library semantics).",
                "bisect.bisect_right has its documented meaning."]
 
@@ -45,6 +51,21 @@ def _is_alloc(e):
     return isinstance(e, ast.Call) and call_name(e) in ALLOC
 
 
+def _N(ctx, f, e):
+    return normalise(ctx, f, e)
+
+
+def _is_self_attr(e, selfn, attr):
+    return is_attr_of(e, selfn, attr)
+
+
+def _strip_float(e):
+    while isinstance(e, ast.Call) and call_name(e) in ("float", "asarray") and len(e.args) == 1 and isinstance(e.func, (ast.Name, ast.Attribute)):
+        e = e.args[0]
+    return e
+
+
+# ------------------------------------------------------------------------------------------------
 def r1_records_are_copies(ctx, rid):
     cls = _cls(ctx)
     data_params = {"__init__": "y0", "update": "y"}
@@ -52,25 +73,31 @@ def r1_records_are_copies(ctx, rid):
         f = get_method(ctx, cls, mname)
         ctx.require(p in f.params, f"{rid}: parameter {p} of DDEHistory.{mname} vanished")
         selfn = f.self_name
+        # names that carry the parameter by reference: p itself and locals re-bound to asarray(p)/p
+        carriers = {p}
+        for st in walk_shallow(f.node):
+            if isinstance(st, ast.Assign) and len(st.targets) == 1 and isinstance(st.targets[0], ast.Name):
+                v = _strip_float(st.value)
+                if isinstance(v, ast.Name) and v.id in carriers:
+                    carriers.add(st.targets[0].id)
         for n in walk_shallow(f.node):
-            if not (isinstance(n, ast.Name) and n.id == p and isinstance(n.ctx, ast.Load)):
+            if not (isinstance(n, ast.Name) and n.id in carriers and isinstance(n.ctx, ast.Load)):
                 continue
             par = parent(n)
             st = stmt_of(ctx.cfg(f), n)
-            # (a) element store into self._y
-            if isinstance(st, ast.Assign) and st.value is n and len(st.targets) == 1 \
-                    and isinstance(st.targets[0], ast.Subscript) and is_attr_of(st.targets[0].value, selfn, "_y"):
-                ctx.ok(rid, f, st, f"`{p}` is copied into the row buffer by element assignment")
+            # (a) element store into the row buffer
+            if isinstance(st, ast.Assign) and st.value is n and len(st.targets) == 1 and isinstance(st.targets[0], ast.Subscript) \
+                    and _is_self_attr(_N(ctx, f, st.targets[0].value), selfn, "_y"):
+                ctx.ok(rid, f, st, f"`{n.id}` is copied into the row buffer by element assignment")
                 continue
             # (b) metadata reads
             if isinstance(par, ast.Attribute) and par.attr in ("shape", "dtype", "ndim", "size"):
-                ctx.ok(rid, f, st, f"only metadata `.{par.attr}` of `{p}` is read", nontrivial=False)
+                ctx.ok(rid, f, st, f"only metadata `.{par.attr}` of `{n.id}` is read", nontrivial=False)
                 continue
-            # (c) re-binding the parameter itself through asarray / float
-            if isinstance(par, ast.Call) and call_name(par) in ("asarray", "float", "array", "ascontiguousarray") \
-                    and isinstance(st, ast.Assign) and st.value is par and len(st.targets) == 1 \
-                    and isinstance(st.targets[0], ast.Name) and st.targets[0].id == p:
-                ctx.ok(rid, f, st, f"`{p}` is re-bound to itself (no escape)", nontrivial=False)
+            # (c) re-binding a carrier through asarray / plain alias
+            if isinstance(st, ast.Assign) and len(st.targets) == 1 and isinstance(st.targets[0], ast.Name) \
+                    and st.targets[0].id in carriers and _strip_float(st.value) is n:
+                ctx.ok(rid, f, st, f"`{n.id}` is re-bound to a local alias (no escape)", nontrivial=False)
                 continue
             ctx.violation(rid, f, st, f"the caller's array `{p}` escapes by reference: used outside an element store into "
                                      f"self._y (a later mutation by the caller would alter the stored record)")
@@ -78,254 +105,387 @@ def r1_records_are_copies(ctx, rid):
     n_stores = 0
     for mname, f in cls.methods.items():
         selfn = f.self_name
+        if selfn is None:
+            continue
         for st in walk_shallow(f.node):
-            if isinstance(st, ast.Assign) and any(is_attr_of(t, selfn, "_y") for t in st.targets):
+            if isinstance(st, ast.Assign) and any(_is_self_attr(t, selfn, "_y") for t in st.targets):
                 n_stores += 1
-                v = st.value
-                okv = _is_alloc(v)
-                if isinstance(v, ast.Name):
-                    defs = ctx.rd(f).defs_reaching(v)
-                    vals = [assigned_value(d, v.id) for d in defs]
-                    okv = bool(vals) and all(x is not None and _is_alloc(x) for x in vals)
-                if okv:
-                    ctx.ok(rid, f, st, "self._y is bound to an array allocated inside this class")
+                v = _N(ctx, f, st.value)
+                if _is_alloc(v):
+                    ctx.ok(rid, f, st, "self._y is bound to an array allocated inside this class", {"normalised": ast.unparse(v)[:160]})
                 else:
                     ctx.violation(rid, f, st, "self._y is bound to a value that is not a fresh allocation of this class "
-                                             "(records could alias caller data)")
+                                             "(records could alias caller data)", {"normalised": ast.unparse(v)[:160]})
     ctx.require(n_stores >= 2, f"{rid}: expected stores to self._y in __init__ and _grow, found {n_stores}")
 
 
-def _classify_update_stmt(st, selfn):
-    if isinstance(st, ast.Expr) and isinstance(st.value, ast.Call) and isinstance(st.value.func, ast.Attribute) \
-            and st.value.func.attr == "append" and is_attr_of(st.value.func.value, selfn, "_t"):
-        return "t"
-    if isinstance(st, ast.Assign) and len(st.targets) == 1 and isinstance(st.targets[0], ast.Subscript) \
-            and is_attr_of(st.targets[0].value, selfn, "_y"):
-        return "y"
-    if isinstance(st, ast.AugAssign) and is_attr_of(st.target, selfn, "_n"):
-        return "n"
-    if isinstance(st, ast.Assign) and any(is_attr_of(t, selfn, "_n") for t in st.targets):
-        return "n="
-    return None
+# ------------------------------------------------------------------------------------------------
+N0, CAP = sp.symbols("n0 cap")
+
+
+class _Exec:
+    """Symbolic execution of the row counter along one path of update()."""
+
+    def __init__(self, ctx, f):
+        self.ctx, self.f, self.selfn = ctx, f, f.self_name
+        self.cur = N0
+        self.env = {}
+        self.events = []          # (kind, stmt, detail)
+
+    def sym(self, e):
+        selfn = self.selfn
+
+        def leaf(n):
+            if _is_self_attr(n, selfn, "_n"):
+                return self.cur
+            if isinstance(n, ast.Call) and call_name(n) == "len" and n.args and _is_self_attr(self._alias(n.args[0]), selfn, "_y"):
+                return CAP
+            if isinstance(n, ast.Name) and n.id in self.env:
+                return self.env[n.id]
+            return None
+        try:
+            return symx.to_sympy(e, leaf=leaf)
+        except symx.Unsupported:
+            return sp.Symbol("opaque_" + str(abs(hash(ast.dump(e))) % 10 ** 6))
+
+    def _alias(self, e):
+        # follow local Name aliases of attributes (old_buffer = self._y)
+        for _ in range(4):
+            if isinstance(e, ast.Name) and e.id in self.aliases:
+                e = self.aliases[e.id]
+            else:
+                break
+        return e
+
+    aliases: dict = {}
+
+    def step(self, st):
+        selfn = self.selfn
+        if isinstance(st, ast.Assign) and len(st.targets) == 1:
+            t = st.targets[0]
+            if isinstance(t, ast.Name):
+                if isinstance(st.value, ast.Attribute):
+                    self.aliases = dict(self.aliases)
+                    self.aliases[t.id] = st.value
+                self.env[t.id] = self.sym(st.value)
+                return
+            if _is_self_attr(t, selfn, "_n"):
+                new = self.sym(st.value)
+                self.events.append(("n", st, sp.simplify(new - self.cur)))
+                self.cur = new
+                return
+            if isinstance(t, ast.Subscript) and _is_self_attr(self._alias(t.value), selfn, "_y"):
+                self.events.append(("y", st, sp.simplify(self.sym(t.slice) - N0)))
+                return
+        if isinstance(st, ast.AugAssign) and _is_self_attr(st.target, selfn, "_n"):
+            d = self.sym(st.value)
+            d = d if isinstance(st.op, ast.Add) else (-d if isinstance(st.op, ast.Sub) else sp.Symbol("opaque_aug"))
+            self.events.append(("n", st, sp.simplify(d)))
+            self.cur = self.cur + d
+            return
+        if isinstance(st, ast.Expr) and isinstance(st.value, ast.Call) and isinstance(st.value.func, ast.Attribute) \
+                and st.value.func.attr == "append" and _is_self_attr(self._alias(st.value.func.value), selfn, "_t"):
+            self.events.append(("t", st, None))
+            return
+        if isinstance(st, ast.Expr) and isinstance(st.value, ast.Call) and isinstance(st.value.func, ast.Attribute) \
+                and st.value.func.attr in ("extend", "insert", "pop", "clear") and _is_self_attr(self._alias(st.value.func.value), selfn, "_t"):
+            self.events.append(("t?", st, st.value.func.attr))
 
 
 def r2_state_advances_together(ctx, rid):
     f = get_method(ctx, _cls(ctx), "update")
-    selfn = f.self_name
     cfg = ctx.cfg(f)
     paths = enumerate_paths(cfg)
     normal = [p for p in paths if p[-1] is cfg.EXIT]
     ctx.require(normal, f"{rid}: update() has no normal path")
     for p in normal:
-        seq = [(_classify_update_stmt(s, selfn), s) for s in p if isinstance(s, ast.stmt)]
-        seq = [(k, s) for k, s in seq if k]
-        kinds = [k for k, _ in seq]
+        ex = _Exec(ctx, f)
+        for s in p:
+            if isinstance(s, ast.stmt):
+                ex.step(s)
+        kinds = [k for k, _, _ in ex.events]
         label = "path " + cfg.path_str(p)
-        facts = {"path": cfg.path_str(p), "events": kinds}
-        if sorted(kinds) != ["n", "t", "y"]:
-            ctx.violation(rid, f, f.node, f"a non-raising path of update() does not perform exactly one time append, one row "
-                                          f"store and one counter increment (events: {kinds})", facts, label=label)
-            continue
-        ystore = [s for k, s in seq if k == "y"][0]
-        ninc = [s for k, s in seq if k == "n"][0]
-        sub = ystore.targets[0].slice
-        uses_n = is_attr_of(sub, selfn, "_n")
-        inc_ok = isinstance(ninc.op, ast.Add) and isinstance(ninc.value, ast.Constant) and ninc.value.value == 1
-        if not uses_n:
-            ctx.violation(rid, f, ystore, "the row store does not use the row counter self._n as its index", facts, label=label + " store")
-        elif kinds.index("y") > kinds.index("n"):
-            ctx.violation(rid, f, ystore, "the row is stored after the counter was incremented (skips a row / writes past the valid range)", facts, label=label + " order")
-        elif not inc_ok:
-            ctx.violation(rid, f, ninc, "the row counter is not advanced by exactly one per record", facts, label=label + " inc")
+        facts = {"path": cfg.path_str(p), "events": [(k, str(d)) for k, _, d in ex.events], "counter_after": str(sp.simplify(ex.cur))}
+        stores = [(s, d) for k, s, d in ex.events if k == "y"]
+        if kinds.count("t") != 1 or "t?" in kinds:
+            ctx.violation(rid, f, f.node, f"a non-raising path of update() does not append exactly one time to the time list (events: {kinds})",
+                          facts, label=label)
+        elif len(stores) != 1:
+            ctx.violation(rid, f, f.node, f"a non-raising path of update() does not store exactly one row (events: {kinds})", facts, label=label)
+        elif sp.simplify(stores[0][1]) != 0:
+            ctx.violation(rid, f, stores[0][0], f"the row is stored at index n0 + ({stores[0][1]}) instead of the number of valid rows n0 "
+                                               f"(skips a row / overwrites the last record / writes past the valid range)", facts, label=label + " store")
+        elif sp.simplify(ex.cur - N0 - 1) != 0:
+            ctx.violation(rid, f, f.node, f"after a record the row counter is {sp.simplify(ex.cur)} instead of n0 + 1", facts, label=label + " inc")
         else:
-            ctx.ok(rid, f, f.node, "one append, one store at the pre-increment counter, one increment", facts, label=label)
+            ctx.ok(rid, f, f.node, "one time appended, one row stored at the pre-update counter, counter advanced by one", facts, label=label)
 
 
-def _capacity_test(st, selfn):
-    """`if self._n >= len(self._y)` (also ==, >, .shape[0])."""
-    if not isinstance(st, ast.If) or not isinstance(st.test, ast.Compare) or len(st.test.ops) != 1:
-        return False
-    l, op, r = st.test.left, st.test.ops[0], st.test.comparators[0]
+# ------------------------------------------------------------------------------------------------
+def _full_polarity(ctx, f, test):
+    """+1 if `test` true means "buffer full", -1 if true means "room left", None if not a capacity test, 'bad' if a capacity test of
+    an unsound form (strict >)."""
+    selfn = f.self_name
+    t = _N(ctx, f, test)
+    neg = 1
+    while isinstance(t, ast.UnaryOp) and isinstance(t.op, ast.Not):
+        t = t.operand
+        neg = -neg
+    if not (isinstance(t, ast.Compare) and len(t.ops) == 1):
+        return None
+    l, op, r = t.left, t.ops[0], t.comparators[0]
 
     def is_cap(e):
-        if isinstance(e, ast.Call) and call_name(e) == "len" and e.args and is_attr_of(e.args[0], selfn, "_y"):
+        if isinstance(e, ast.Call) and call_name(e) == "len" and e.args and _is_self_attr(e.args[0], selfn, "_y"):
             return True
-        if isinstance(e, ast.Subscript) and isinstance(e.value, ast.Attribute) and e.value.attr == "shape" \
-                and is_attr_of(e.value.value, selfn, "_y"):
-            return True
-        return False
-    if is_attr_of(l, selfn, "_n") and is_cap(r) and isinstance(op, (ast.GtE, ast.Eq)):
-        return True
-    if is_cap(l) and is_attr_of(r, selfn, "_n") and isinstance(op, (ast.LtE, ast.Eq)):
-        return True
-    return False
+        return isinstance(e, ast.Subscript) and isinstance(e.value, ast.Attribute) and e.value.attr == "shape" \
+            and _is_self_attr(e.value.value, selfn, "_y") and isinstance(e.slice, ast.Constant) and e.slice.value == 0
+
+    def is_n(e):
+        return _is_self_attr(e, selfn, "_n")
+    if is_n(l) and is_cap(r):
+        kind = {ast.GtE: 1, ast.Eq: 1, ast.Lt: -1, ast.NotEq: -1}.get(type(op))
+    elif is_cap(l) and is_n(r):
+        kind = {ast.LtE: 1, ast.Eq: 1, ast.Gt: -1, ast.NotEq: -1}.get(type(op))
+    else:
+        return None
+    if kind is None:
+        return "bad"
+    return kind * neg
+
+
+def _growable_polarity(ctx, f, test):
+    selfn = f.self_name
+    t = _N(ctx, f, test)
+    neg = 1
+    while isinstance(t, ast.UnaryOp) and isinstance(t.op, ast.Not):
+        t = t.operand
+        neg = -neg
+    if _is_self_attr(t, selfn, "_growable"):
+        return neg
+    return None
 
 
 def r3_bounded_history_refuses(ctx, rid):
     f = get_method(ctx, _cls(ctx), "update")
     selfn = f.self_name
     cfg = ctx.cfg(f)
-    stores = [s for s in cfg.stmts() if _classify_update_stmt(s, selfn) == "y"]
-    ctx.require(stores, f"{rid}: no row store found in update()")
-    tests = [s for s in cfg.stmts() if _capacity_test(s, selfn)]
-    any_test_form = [s for s in cfg.stmts() if isinstance(s, ast.If) and any(is_attr_of(n, selfn, "_n") for n in ast.walk(s.test))]
-    if not tests and any_test_form:
-        raise AnalysisError(f"{rid}: capacity test in update() has an unrecognised form: {norm(any_test_form[0])}")
 
-    def is_grow(n):
-        return isinstance(n, ast.stmt) and any(isinstance(c.func, ast.Attribute) and c.func.attr == "_grow"
-                                               and isinstance(c.func.value, ast.Name) and c.func.value.id == selfn
-                                               for c in stmt_calls(n)) and not isinstance(n, (ast.If, ast.While))
-    for store in stores:
-        dom = [t for t in tests if cfg.dominates(t, store)]
-        if not dom:
-            ctx.violation(rid, f, store, "the row store is not dominated by a test of the counter against the buffer capacity "
-                                        "(a full buffer would be overwritten or indexed out of range)")
+    def is_store(s):
+        return isinstance(s, ast.Assign) and len(s.targets) == 1 and isinstance(s.targets[0], ast.Subscript) \
+            and _is_self_attr(_N(ctx, f, s.targets[0].value), selfn, "_y")
+
+    def is_grow(s):
+        return isinstance(s, ast.stmt) and not isinstance(s, (ast.If, ast.While)) and any(
+            isinstance(c.func, ast.Attribute) and c.func.attr == "_grow" and isinstance(c.func.value, ast.Name) and c.func.value.id == selfn
+            for c in stmt_calls(s))
+    stores = [s for s in cfg.stmts() if is_store(s)]
+    ctx.require(stores, f"{rid}: no row store found in update()")
+    tests = {}
+    for s in cfg.stmts():
+        if isinstance(s, ast.If):
+            pol = _full_polarity(ctx, f, s.test)
+            if pol == "bad":
+                raise AnalysisError(f"{rid}: capacity test in update() has an unrecognised form: {norm(s)}")
+            if pol is not None:
+                tests[s] = pol
+    gtests = {s: _growable_polarity(ctx, f, s.test) for s in cfg.stmts() if isinstance(s, ast.If) and _growable_polarity(ctx, f, s.test) is not None}
+    paths = enumerate_paths(cfg)
+
+    def edge(path, node):
+        i = [k for k, x in enumerate(path) if x is node]
+        if not i or i[0] + 1 >= len(path):
+            return None
+        labels = cfg.g[path[i[0]]][path[i[0] + 1]]["labels"]
+        return True if "true" in labels else (False if "false" in labels else None)
+    n_full_raise = 0
+    verdicts = []
+    for p in paths:
+        ends_normal = p[-1] is cfg.EXIT
+        store_pos = [k for k, x in enumerate(p) if any(x is s for s in stores)]
+        full = None
+        for tnode, pol in tests.items():
+            e = edge(p, tnode)
+            if e is not None:
+                full = (e == (pol == 1))
+        growable = None
+        for gnode, pol in gtests.items():
+            e = edge(p, gnode)
+            if e is not None:
+                growable = (e == (pol == 1))
+        grow_pos = [k for k, x in enumerate(p) if is_grow(x)]
+        if not ends_normal:
+            if full and growable is False:
+                n_full_raise += 1
             continue
-        t = dom[0]
-        # every path from the true branch to the store passes _grow(); paths that avoid it must end in RAISE
-        bad = None
-        for s in cfg.successors(t, "true"):
-            if is_grow(s):
-                continue
-            if s is store:
-                bad = [t, s]
-                break
-            p = cfg.reachable_avoiding(s, store, is_grow)
-            if p is not None:
-                bad = [t] + p
-                break
-        facts = {"capacity_test": norm(t), "dominators": [norm(d) for d in cfg.dominators(store) if isinstance(d, ast.stmt)]}
-        if bad:
-            facts["witness"] = cfg.path_str(bad)
-            ctx.violation(rid, f, store, "on the buffer-full branch a path reaches the row store without growing the buffer and "
-                                        "without raising (a bounded history would overwrite/overflow instead of refusing)", facts)
+        if not store_pos:
+            continue
+        facts = {"path": cfg.path_str(p), "buffer_full": full, "growable": growable}
+        if full is None:
+            verdicts.append(("violation", stores[0], "a path reaches the row store without any test of the counter against the buffer capacity "
+                                                      "(a full buffer would be overwritten or indexed out of range)", facts))
+        elif full and not (grow_pos and grow_pos[0] < store_pos[0]):
+            verdicts.append(("violation", stores[0], "on the buffer-full branch a path reaches the row store without growing the buffer and "
+                                                      "without raising (a bounded history would overwrite/overflow instead of refusing)", facts))
+        elif grow_pos and growable is not True:
+            verdicts.append(("violation", p[grow_pos[0]], "self._grow() is reached on a path where the _growable flag was not tested true: a history "
+                                                           "bounded by max_steps would grow", facts))
+        elif grow_pos and not full:
+            verdicts.append(("info", p[grow_pos[0]], "growth on a path where the buffer is not full", facts))
         else:
-            # the non-growable sub-branch must raise: there must exist a raise in the true-branch
-            raises = [n for n in cfg.stmts() if isinstance(n, ast.Raise) and contains(t, n) and any(contains(b, n) for b in t.body)]
-            if not raises:
-                ctx.violation(rid, f, t, "the buffer-full branch contains no raise: a history with max_steps cannot refuse", facts)
-            else:
-                ctx.ok(rid, f, store, "store dominated by the capacity test; full branch reaches the store only via _grow(), else raises", facts)
-    # _growable must be what separates grow from raise
-    grow_calls = [s for s in cfg.stmts() if is_grow(s)]
-    ctx.require(grow_calls, f"{rid}: no call of self._grow() in update()")
-    for g in grow_calls:
-        guards = [d for d in cfg.dominators(g) if isinstance(d, ast.If) and any(is_attr_of(n, selfn, "_growable") for n in ast.walk(d.test))]
-        if guards:
-            ctx.ok(rid, f, g, "growth happens only under the _growable flag", {"guard": norm(guards[0])})
+            verdicts.append(("ok", stores[0], "row store reached with room left, or after _grow() under the _growable flag", facts))
+    seen = set()
+    for status, node, msg, facts in verdicts:
+        key = (status, id(node), msg)
+        if key in seen:
+            continue
+        seen.add(key)
+        if status == "violation":
+            ctx.violation(rid, f, node, msg, facts)
+        elif status == "ok":
+            ctx.ok(rid, f, node, msg, facts, label=f"{norm(node)} [{facts['path']}]")
         else:
-            ctx.violation(rid, f, g, "self._grow() is not guarded by the _growable flag: a history bounded by max_steps would grow "
-                                    "or the bounded case is indistinguishable")
-    # the flag is False exactly when max_steps was given
+            ctx.info(rid, f, node, msg, facts)
+    if n_full_raise >= 1:
+        ctx.ok(rid, f, f.node, "a full history that is not growable can only raise", label="bounded history refuses")
+    else:
+        ctx.violation(rid, f, f.node, "no raising path for a full buffer of a bounded (not growable) history: it cannot refuse updates beyond "
+                                      "its capacity", label="bounded history refuses")
+    # the flag is true exactly when max_steps was not given
     init = get_method(ctx, _cls(ctx), "__init__")
-    sets = [(s, s.value) for s in walk_shallow(init.node) if isinstance(s, ast.Assign) and any(is_attr_of(t, init.self_name, "_growable") for t in s.targets)]
+    sn = init.self_name
+    sets = [s for s in walk_shallow(init.node) if isinstance(s, ast.Assign) and any(_is_self_attr(t, sn, "_growable") for t in s.targets)]
     ctx.require(sets, f"{rid}: __init__ no longer sets _growable")
     icfg = ctx.cfg(init)
-    for s, v in sets:
-        guard = [d for d in icfg.dominators(s) if isinstance(d, ast.If) and d is not s]
-        if not guard or not isinstance(v, ast.Constant):
-            raise AnalysisError(f"{rid}: unrecognised form of the _growable assignment: {norm(s)}")
-        g = guard[0]
-        test_is_none = isinstance(g.test, ast.Compare) and isinstance(g.test.left, ast.Name) and g.test.left.id == "max_steps" \
-            and isinstance(g.test.ops[0], (ast.Is, ast.IsNot)) and isinstance(g.test.comparators[0], ast.Constant) and g.test.comparators[0].value is None
-        if not test_is_none:
-            raise AnalysisError(f"{rid}: unrecognised guard of the _growable assignment: {norm(g)}")
-        in_true = any(contains(b, s) for b in g.body)
-        none_branch = in_true == isinstance(g.test.ops[0], ast.Is)
-        if bool(v.value) == none_branch:
-            ctx.ok(rid, init, s, f"_growable={v.value} on the max_steps {'is' if none_branch else 'is not'} None branch")
+    for s in sets:
+        v = _N(ctx, init, s.value)
+        verdict = None
+        if isinstance(v, ast.Compare) and len(v.ops) == 1 and isinstance(v.left, ast.Name) and v.left.id == "max_steps" \
+                and isinstance(v.comparators[0], ast.Constant) and v.comparators[0].value is None:
+            verdict = isinstance(v.ops[0], (ast.Is, ast.Eq))
+            where = "assigned `max_steps is None`" if verdict else "assigned `max_steps is not None`"
+        elif isinstance(v, ast.UnaryOp) and isinstance(v.op, ast.Not) and isinstance(v.operand, ast.Compare) \
+                and isinstance(v.operand.left, ast.Name) and v.operand.left.id == "max_steps":
+            verdict = isinstance(v.operand.ops[0], (ast.IsNot, ast.NotEq))
+            where = f"assigned `{ast.unparse(v)}`"
+        elif isinstance(v, ast.Constant) and isinstance(v.value, bool):
+            guard = [d for d in icfg.dominators(s) if isinstance(d, ast.If) and d is not s]
+            if not guard:
+                raise AnalysisError(f"{rid}: unrecognised form of the _growable assignment: {norm(s)}")
+            g = guard[0]
+            gt = _N(ctx, init, g.test)
+            if not (isinstance(gt, ast.Compare) and isinstance(gt.left, ast.Name) and gt.left.id == "max_steps"
+                    and isinstance(gt.ops[0], (ast.Is, ast.IsNot)) and isinstance(gt.comparators[0], ast.Constant) and gt.comparators[0].value is None):
+                raise AnalysisError(f"{rid}: unrecognised guard of the _growable assignment: {norm(g)}")
+            in_true = any(contains(b, s) for b in g.body)
+            none_branch = in_true == isinstance(gt.ops[0], ast.Is)
+            verdict = bool(v.value) == none_branch
+            where = f"_growable={v.value} on the branch where max_steps {'is' if none_branch else 'is not'} None"
         else:
-            ctx.violation(rid, init, s, f"_growable={v.value} on the branch where max_steps {'is' if none_branch else 'is not'} None: "
-                                        "a bounded history would grow (or an unbounded one refuse)")
+            raise AnalysisError(f"{rid}: unrecognised form of the _growable assignment: {norm(s)}")
+        if verdict:
+            ctx.ok(rid, init, s, f"the history is growable exactly when max_steps is None ({where})")
+        else:
+            ctx.violation(rid, init, s, f"{where}: a bounded history would grow (or an unbounded one refuse)")
 
 
+# ------------------------------------------------------------------------------------------------
 def r4_growth_keeps_records(ctx, rid):
     cls = _cls(ctx)
     f = get_method(ctx, cls, "_grow")
     selfn = f.self_name
     cfg = ctx.cfg(f)
-    rebind = [s for s in cfg.stmts() if isinstance(s, ast.Assign) and any(is_attr_of(t, selfn, "_y") for t in s.targets)]
-    ctx.require(len(rebind) == 1 and isinstance(rebind[0].value, ast.Name), f"{rid}: unrecognised form of the re-binding of self._y in _grow")
+    rebind = [s for s in cfg.stmts() if isinstance(s, ast.Assign) and any(_is_self_attr(t, selfn, "_y") for t in s.targets)]
+    ctx.require(len(rebind) == 1, f"{rid}: expected exactly one re-binding of self._y in _grow")
     rb = rebind[0]
-    newname = rb.value.id
-    # allocation
-    allocs = [s for s in cfg.stmts() if isinstance(s, ast.Assign) and any(isinstance(t, ast.Name) and t.id == newname for t in s.targets)]
-    ctx.require(len(allocs) == 1 and _is_alloc(allocs[0].value), f"{rid}: unrecognised allocation of the new buffer in _grow")
-    alloc = allocs[0].value
+    alloc = _N(ctx, f, rb.value)
+    ctx.require(_is_alloc(alloc), f"{rid}: the value re-bound to self._y in _grow does not normalise to an allocation: {ast.unparse(alloc)[:120]}")
     # --- capacity: first element of the shape tuple
-    shape = alloc.args[0] if alloc.args else None
-    cap_expr = None
+    shape = alloc.args[0] if alloc.args else next((k.value for k in alloc.keywords if k.arg == "shape"), None)
+    cap_expr = tail = None
     if isinstance(shape, ast.BinOp) and isinstance(shape.op, ast.Add) and isinstance(shape.left, ast.Tuple) and len(shape.left.elts) == 1:
-        cap_expr = shape.left.elts[0]
-        tail = shape.right
+        cap_expr, tail = shape.left.elts[0], shape.right
     elif isinstance(shape, ast.Tuple) and shape.elts:
         cap_expr = shape.elts[0]
-        tail = shape.elts[1] if len(shape.elts) == 2 and isinstance(shape.elts[1], ast.Starred) else None
-    ctx.require(cap_expr is not None, f"{rid}: unrecognised shape expression of the new buffer: {norm(alloc)}")
+        tail = shape.elts[1].value if len(shape.elts) == 2 and isinstance(shape.elts[1], ast.Starred) else None
+    ctx.require(cap_expr is not None, f"{rid}: unrecognised shape expression of the new buffer: {ast.unparse(alloc)[:120]}")
 
-    def inline(e, depth=0):
-        if isinstance(e, ast.Name) and depth < 5:
-            v = single_def_value(ctx, f, e)
-            if v is not None:
-                return inline(v, depth + 1)
-        return e
-    cap = inline(cap_expr)
-    factor = None
-    old_ok = False
-    if isinstance(cap, ast.BinOp) and isinstance(cap.op, ast.Mult):
-        for a, b in ((cap.left, cap.right), (cap.right, cap.left)):
-            a_i = inline(a)
-            if isinstance(a_i, ast.Call) and call_name(a_i) == "len" and a_i.args and is_attr_of(a_i.args[0], selfn, "_y"):
-                old_ok = True
-                b_i = inline(b)
-                if isinstance(b_i, ast.Constant):
-                    factor = b_i.value
-                elif isinstance(b_i, ast.Attribute) and isinstance(b_i.value, ast.Name) and b_i.value.id in (selfn, cls.name):
-                    at = ctx.repo.lookup_attr(cls, b_i.attr)
-                    if at and isinstance(at[1], ast.Constant):
-                        factor = at[1].value
-    ctx.require(old_ok, f"{rid}: new capacity is not of the recognised form old_capacity * factor: {ast.unparse(cap)}")
-    facts = {"capacity": ast.unparse(cap), "factor": factor}
-    if isinstance(factor, int) and not isinstance(factor, bool) and factor >= 2:
-        ctx.ok(rid, f, allocs[0], f"capacity grows by the integer factor {factor} >= 2", facts)
+    def cap_sym(e):
+        def leaf(n):
+            if isinstance(n, ast.Call) and call_name(n) == "len" and n.args and _is_self_attr(n.args[0], selfn, "_y"):
+                return CAP
+            if isinstance(n, ast.Subscript) and isinstance(n.value, ast.Attribute) and n.value.attr == "shape" and _is_self_attr(n.value.value, selfn, "_y") \
+                    and isinstance(n.slice, ast.Constant) and n.slice.value == 0:
+                return CAP
+            if isinstance(n, ast.Attribute) and isinstance(n.value, ast.Name) and n.value.id in (selfn, cls.name):
+                at = ctx.repo.lookup_attr(cls, n.attr)
+                if at and isinstance(at[1], ast.Constant) and isinstance(at[1].value, (int, float)) and not isinstance(at[1].value, bool):
+                    return sp.nsimplify(at[1].value, rational=True)
+            return None
+        return symx.to_sympy(e, leaf=leaf)
+    try:
+        new_cap = sp.simplify(cap_sym(cap_expr))
+    except symx.Unsupported as e:
+        raise AnalysisError(f"{rid}: new capacity has an unsupported form: {e}")
+    facts = {"new_capacity": str(new_cap), "normalised_allocation": ast.unparse(alloc)[:200]}
+    ratio = sp.simplify(new_cap / CAP)
+    diff = sp.simplify(new_cap - CAP)
+    if new_cap.free_symbols - {CAP}:
+        raise AnalysisError(f"{rid}: new capacity `{new_cap}` depends on something other than the old capacity")
+    if ratio.is_Integer and ratio >= 2:
+        ctx.ok(rid, f, rb, f"capacity grows by the integer factor {ratio} >= 2", facts, label="growth factor")
+    elif diff.is_Integer and diff >= 1:
+        ctx.ok(rid, f, rb, f"capacity grows by {diff} rows", facts, label="growth factor")
     else:
-        ctx.violation(rid, f, allocs[0], f"growth factor is {factor!r}: the new buffer is not guaranteed to have room for the next "
-                                         "row with an integer capacity (update() would index out of range or np.empty would reject a float)", facts)
+        ctx.violation(rid, f, rb, f"the new capacity is `{new_cap}` (old capacity = cap): not an integer enlargement - update() would index out of "
+                                  f"range or np.empty would reject a float size", facts, label="growth factor")
     # --- trailing shape and dtype from the old buffer
-    tail_ok = tail is not None and "shape[1:]" in ast.unparse(tail) and any(is_attr_of(n, selfn, "_y") for n in ast.walk(tail))
-    dtype_kw = [k for k in alloc.keywords if k.arg == "dtype"]
-    dtype_ok = bool(dtype_kw) and isinstance(dtype_kw[0].value, ast.Attribute) and dtype_kw[0].value.attr == "dtype" \
-        and is_attr_of(dtype_kw[0].value.value, selfn, "_y")
+    tail_ok = tail is not None and isinstance(tail, ast.Subscript) and isinstance(tail.value, ast.Attribute) and tail.value.attr == "shape" \
+        and _is_self_attr(tail.value.value, selfn, "_y") and isinstance(tail.slice, ast.Slice) and tail.slice.upper is None \
+        and isinstance(tail.slice.lower, ast.Constant) and tail.slice.lower.value == 1
+    dtype_kw = [k.value for k in alloc.keywords if k.arg == "dtype"] or ([alloc.args[1]] if len(alloc.args) > 1 else [])
+    dtype_ok = bool(dtype_kw) and isinstance(dtype_kw[0], ast.Attribute) and dtype_kw[0].attr == "dtype" and _is_self_attr(dtype_kw[0].value, selfn, "_y")
     if tail_ok and dtype_ok:
-        ctx.ok(rid, f, allocs[0], "trailing shape and dtype are taken from the old buffer", label="new buffer layout")
+        ctx.ok(rid, f, rb, "trailing shape and dtype are taken from the old buffer", label="new buffer layout")
     else:
-        ctx.violation(rid, f, allocs[0], "the new buffer does not take trailing shape and dtype from the old buffer "
-                                         f"(tail_ok={tail_ok}, dtype_ok={dtype_ok}): records would be cast or reshaped on growth", label="new buffer layout")
+        ctx.violation(rid, f, rb, "the new buffer does not take trailing shape and dtype from the old buffer "
+                                  f"(tail_ok={tail_ok}, dtype_ok={dtype_ok}): records would be cast or reshaped on growth", facts, label="new buffer layout")
     # --- copy of the valid rows precedes the re-binding
+    def root_name(e):
+        for _ in range(5):
+            if isinstance(e, ast.Name):
+                from engine.util import single_def_value
+                v = single_def_value(ctx, f, e)
+                if isinstance(v, ast.Name):
+                    e = v
+                    continue
+            break
+        return e.id if isinstance(e, ast.Name) else None
+    new_name = root_name(rb.value)
+    good = None
     copies = []
     for s in cfg.stmts():
-        if isinstance(s, ast.Assign) and len(s.targets) == 1 and isinstance(s.targets[0], ast.Subscript) \
-                and isinstance(s.targets[0].value, ast.Name) and s.targets[0].value.id == newname:
+        if isinstance(s, ast.Assign) and len(s.targets) == 1 and isinstance(s.targets[0], ast.Subscript) and s is not rb:
+            tgt, val = s.targets[0], s.value
+            if root_name(tgt.value) != new_name or new_name is None:
+                continue
             copies.append(s)
-    good = None
-    for c in copies:
-        tgt, val = c.targets[0], c.value
-        if isinstance(val, ast.Subscript) and is_attr_of(val.value, selfn, "_y") and isinstance(tgt.slice, ast.Slice) \
-                and isinstance(val.slice, ast.Slice) and tgt.slice.lower is None and val.slice.lower is None \
-                and tgt.slice.upper is not None and val.slice.upper is not None \
-                and ast.dump(tgt.slice.upper) == ast.dump(val.slice.upper) \
-                and (is_attr_of(tgt.slice.upper, selfn, "_n") or ast.unparse(inline(tgt.slice.upper)) in (f"len({selfn}._y)",)):
-            good = c
+            nv = _N(ctx, f, val)
+            if isinstance(nv, ast.Subscript) and _is_self_attr(nv.value, selfn, "_y") and isinstance(tgt.slice, ast.Slice) and isinstance(nv.slice, ast.Slice) \
+                    and tgt.slice.lower is None and nv.slice.lower is None and tgt.slice.upper is not None and nv.slice.upper is not None:
+                up_t, up_v = _N(ctx, f, tgt.slice.upper), nv.slice.upper
+                if ast.dump(up_t) == ast.dump(up_v) and (_is_self_attr(up_t, selfn, "_n") or ast.unparse(up_t) == f"len({selfn}._y)"):
+                    good = s
     if good is None:
         ctx.violation(rid, f, rb, "self._y is re-bound to the new buffer without first copying rows [:self._n] of the old one "
-                                  "(recorded history is lost on growth)", {"copies_seen": [norm(c) for c in copies]})
+                                  "(recorded history is lost on growth)", {"copies_seen": [norm(c) for c in copies]}, label="rows copied before re-binding")
     elif not cfg.dominates(good, rb):
-        ctx.violation(rid, f, rb, "the copy of the valid rows does not precede the re-binding of self._y on every path")
+        ctx.violation(rid, f, rb, "the copy of the valid rows does not precede the re-binding of self._y on every path", label="rows copied before re-binding")
     else:
-        ctx.ok(rid, f, rb, "rows [:n] are copied into the new buffer before self._y is re-bound", {"copy": norm(good)})
+        ctx.ok(rid, f, rb, "rows [:n] are copied into the new buffer before self._y is re-bound", {"copy": norm(good)}, label="rows copied before re-binding")
 
 
+# ------------------------------------------------------------------------------------------------
 def r5_query(ctx, rid):
     f = get_method(ctx, _cls(ctx), "__call__")
     selfn = f.self_name
@@ -336,9 +496,12 @@ def r5_query(ctx, rid):
     rets = sorted([s for s in cfg.stmts() if isinstance(s, ast.Return)], key=lambda s: s.lineno)
     ctx.require(len(rets) == 3, f"{rid}: expected 3 returns (two clamps + interpolation) in __call__, found {len(rets)}")
 
+    def is_query(e):
+        e = _strip_float(e)
+        return isinstance(e, ast.Name) and e.id == tname
+
     def t_index(e):
-        """self._t[k] -> k (int) or None"""
-        if isinstance(e, ast.Subscript) and is_attr_of(e.value, selfn, "_t"):
+        if isinstance(e, ast.Subscript) and _is_self_attr(e.value, selfn, "_t"):
             try:
                 return ast.literal_eval(e.slice)
             except Exception:
@@ -349,19 +512,27 @@ def r5_query(ctx, rid):
         g = [d for d in cfg.dominators(ret) if isinstance(d, ast.If) and any(contains(b, ret) for b in d.body)]
         return g[0] if g else None
 
-    # ---- lower clamp
+    def cmp_parts(g):
+        """(op, time-list index) with the query on the left-hand side (operands swapped if necessary)."""
+        t = _N(ctx, f, g.test)
+        if not (isinstance(t, ast.Compare) and len(t.ops) == 1):
+            return None
+        l, op, r = t.left, t.ops[0], t.comparators[0]
+        swap = {ast.Lt: ast.Gt, ast.Gt: ast.Lt, ast.LtE: ast.GtE, ast.GtE: ast.LtE}
+        if is_query(l) and t_index(r) is not None:
+            return type(op), t_index(r)
+        if is_query(r) and t_index(l) is not None and type(op) in swap:
+            return swap[type(op)], t_index(l)
+        return None
     lo, hi, mid = rets
+    # ---- lower clamp
     g = guard_of(lo)
-    ok_lo = False
-    if g is not None and isinstance(g.test, ast.Compare) and len(g.test.ops) == 1:
-        l, op, r = g.test.left, g.test.ops[0], g.test.comparators[0]
-        if isinstance(l, ast.Name) and l.id == tname and t_index(r) == 0 and isinstance(op, (ast.LtE, ast.Lt)):
-            ok_lo = True
-    row0 = isinstance(lo.value, ast.Subscript) and is_attr_of(lo.value.value, selfn, "_y") \
-        and isinstance(lo.value.slice, ast.Constant) and lo.value.slice.value == 0
     if g is None:
         raise AnalysisError(f"{rid}: first return of __call__ is not guarded by an if")
-    if ok_lo and row0:
+    cp = cmp_parts(g)
+    lov = _N(ctx, f, lo.value)
+    row0 = isinstance(lov, ast.Subscript) and _is_self_attr(lov.value, selfn, "_y") and isinstance(lov.slice, ast.Constant) and lov.slice.value == 0
+    if cp is not None and cp[1] == 0 and cp[0] in (ast.LtE, ast.Lt) and row0:
         ctx.ok(rid, f, lo, "query at/before the first recorded time returns row 0", {"guard": norm(g)})
     else:
         ctx.violation(rid, f, lo, f"lower clamp is wrong: guard `{norm(g)}` must compare t with the first recorded time (t <= self._t[0]) "
@@ -370,16 +541,12 @@ def r5_query(ctx, rid):
     g = guard_of(hi)
     if g is None:
         raise AnalysisError(f"{rid}: second return of __call__ is not guarded by an if")
-    ok_hi = False
-    if isinstance(g.test, ast.Compare) and len(g.test.ops) == 1:
-        l, op, r = g.test.left, g.test.ops[0], g.test.comparators[0]
-        if isinstance(l, ast.Name) and l.id == tname and t_index(r) == -1 and isinstance(op, ast.GtE):
-            ok_hi = True
-    v = hi.value
-    last_row = isinstance(v, ast.Subscript) and is_attr_of(v.value, selfn, "_y") and isinstance(v.slice, ast.BinOp) \
-        and isinstance(v.slice.op, ast.Sub) and is_attr_of(v.slice.left, selfn, "_n") and isinstance(v.slice.right, ast.Constant) \
-        and v.slice.right.value == 1
-    if ok_hi and last_row:
+    cp = cmp_parts(g)
+    hv = _N(ctx, f, hi.value)
+    last_row = isinstance(hv, ast.Subscript) and _is_self_attr(hv.value, selfn, "_y") and isinstance(hv.slice, ast.BinOp) \
+        and isinstance(hv.slice.op, ast.Sub) and _is_self_attr(hv.slice.left, selfn, "_n") and isinstance(hv.slice.right, ast.Constant) \
+        and hv.slice.right.value == 1
+    if cp is not None and cp[1] == -1 and cp[0] is ast.GtE and last_row:
         ctx.ok(rid, f, hi, "query at/after the last recorded time returns the last valid row n-1", {"guard": norm(g)})
     else:
         ctx.violation(rid, f, hi, f"upper clamp is wrong: guard `{norm(g)}` must be t >= self._t[-1] (strict > would index past the "
@@ -387,39 +554,37 @@ def r5_query(ctx, rid):
                       {"guard": norm(g), "returns": norm(hi)})
     # ---- interpolation
     B = sp.Symbol("B")      # bisect_right(self._t, t)
+    tq = sp.Symbol(tname)
 
     def leaf(n):
         if isinstance(n, ast.Call) and call_name(n) in ("bisect_right", "bisect"):
             a = n.args
-            if len(a) == 2 and is_attr_of(a[0], selfn, "_t") and isinstance(a[1], ast.Name) and a[1].id == tname:
+            if len(a) == 2 and _is_self_attr(a[0], selfn, "_t") and is_query(a[1]):
                 return B
             raise AnalysisError(f"{rid}: unrecognised bisect call {ast.unparse(n)}")
         if isinstance(n, ast.Call) and call_name(n) == "bisect_left":
             return sp.Symbol("B_left")
-        if isinstance(n, ast.Name) and n.id != tname:
-            val = single_def_value(ctx, f, n)
-            if val is not None:
-                return symx.to_sympy(val, leaf=leaf)
+        if isinstance(n, ast.Call) and call_name(n) == "float" and len(n.args) == 1 and is_query(n.args[0]):
+            return tq
         return None
+    nm = _N(ctx, f, mid.value)
     try:
-        expr = symx.to_sympy(mid.value, leaf=leaf)
+        expr = symx.to_sympy(nm, leaf=leaf)
     except symx.Unsupported as e:
         raise AnalysisError(f"{rid}: interpolation return has an unsupported form: {e}")
     i = B - 1
-    t = sp.Symbol(tname)
-    good = symx.is_linear_interpolant(expr, q=t, Y=f"{selfn}._y", X=f"{selfn}._t", lo=i, hi=i + 1)
-    facts = {"normalised": str(sp.simplify(expr)), "reference": "Y(B-1) + (t - T(B-1))/(T(B) - T(B-1)) * (Y(B) - Y(B-1)),  B = bisect_right(T, t)"}
+    good = symx.is_linear_interpolant(expr, q=tq, Y=f"{selfn}._y", X=f"{selfn}._t", lo=i, hi=i + 1)
+    facts = {"normalised": str(sp.simplify(expr))[:300], "reference": "Y(B-1) + (t - T(B-1))/(T(B) - T(B-1)) * (Y(B) - Y(B-1)),  B = bisect_right(T, t)"}
     if good:
         ctx.ok(rid, f, mid, "interior query normalises to the linear interpolant between the neighbouring records", facts)
     else:
         ctx.violation(rid, f, mid, "interior query is not the linear interpolation between records bisect_right(times,t)-1 and its successor", facts)
-    # float(t) conversion of the query must not change t otherwise: t is only re-bound to float(t)
+    # the query time is only converted to float before the lookup
     for s in cfg.stmts():
         if isinstance(s, (ast.Assign, ast.AugAssign)):
             tg = s.targets if isinstance(s, ast.Assign) else [s.target]
             if any(isinstance(x, ast.Name) and x.id == tname for x in tg):
-                if isinstance(s, ast.Assign) and isinstance(s.value, ast.Call) and call_name(s.value) == "float" \
-                        and len(s.value.args) == 1 and isinstance(s.value.args[0], ast.Name) and s.value.args[0].id == tname:
+                if isinstance(s, ast.Assign) and is_query(s.value):
                     ctx.ok(rid, f, s, "query time only converted to float", nontrivial=False)
                 else:
                     ctx.violation(rid, f, s, "the query time is modified before the lookup")
@@ -430,24 +595,30 @@ def r6_update_time_is_recorded_unchanged(ctx, rid):
     cls = _cls(ctx)
     f = get_method(ctx, cls, "update")
     selfn = f.self_name
+    tparam = [p for p in f.params if p != selfn][0]
+    n_app = 0
     for s in walk_shallow(f.node):
-        if isinstance(s, ast.stmt) and _classify_update_stmt(s, selfn) == "t":
+        if isinstance(s, ast.Expr) and isinstance(s.value, ast.Call) and isinstance(s.value.func, ast.Attribute) and s.value.func.attr == "append" \
+                and _is_self_attr(_N(ctx, f, s.value.func.value), selfn, "_t"):
+            n_app += 1
             a = s.value.args
-            good = len(a) == 1 and ((isinstance(a[0], ast.Name) and a[0].id == "t") or
-                                    (isinstance(a[0], ast.Call) and call_name(a[0]) == "float" and len(a[0].args) == 1
-                                     and isinstance(a[0].args[0], ast.Name) and a[0].args[0].id == "t"))
+            v = _strip_float(_N(ctx, f, a[0])) if len(a) == 1 else None
+            good = isinstance(v, ast.Name) and v.id == tparam
             (ctx.ok if good else ctx.violation)(rid, f, s, "the recorded time is the update's t" if good else
                                                 "the recorded time is not the t passed to update()")
+    ctx.require(n_app >= 1, f"{rid}: update() no longer appends to the time list")
     init = get_method(ctx, cls, "__init__")
     sn = init.self_name
-    n_init = [s for s in walk_shallow(init.node) if isinstance(s, ast.Assign) and any(is_attr_of(t, sn, "_n") for t in s.targets)]
+    n_init = [s for s in walk_shallow(init.node) if isinstance(s, ast.Assign) and any(_is_self_attr(t, sn, "_n") for t in s.targets)]
     row0 = [s for s in walk_shallow(init.node) if isinstance(s, ast.Assign) and len(s.targets) == 1 and isinstance(s.targets[0], ast.Subscript)
-            and is_attr_of(s.targets[0].value, sn, "_y")]
-    t_init = [s for s in walk_shallow(init.node) if isinstance(s, ast.Assign) and any(is_attr_of(t, sn, "_t") for t in s.targets)]
+            and _is_self_attr(_N(ctx, init, s.targets[0].value), sn, "_y")]
+    t_init = [s for s in walk_shallow(init.node) if isinstance(s, ast.Assign) and any(_is_self_attr(t, sn, "_t") for t in s.targets)]
     ctx.require(len(n_init) == 1 and len(row0) == 1 and len(t_init) == 1, f"{rid}: unrecognised initialisation in DDEHistory.__init__")
-    good = isinstance(n_init[0].value, ast.Constant) and n_init[0].value.value == 1 \
-        and isinstance(row0[0].targets[0].slice, ast.Constant) and row0[0].targets[0].slice.value == 0 \
-        and isinstance(t_init[0].value, ast.List) and len(t_init[0].value.elts) == 1
+    nv = _N(ctx, init, n_init[0].value)
+    iv = _N(ctx, init, row0[0].targets[0].slice)
+    tv = _N(ctx, init, t_init[0].value)
+    good = isinstance(nv, ast.Constant) and nv.value == 1 and isinstance(iv, ast.Constant) and iv.value == 0 \
+        and isinstance(tv, ast.List) and len(tv.elts) == 1
     if good:
         ctx.ok(rid, init, n_init[0], "initial record: one time, row 0, n = 1")
     else:
@@ -457,7 +628,7 @@ def r6_update_time_is_recorded_unchanged(ctx, rid):
 RULES = [
     ("C19-R1", r1_records_are_copies, 4),
     ("C19-R2", r2_state_advances_together, 2),
-    ("C19-R3", r3_bounded_history_refuses, 4),
+    ("C19-R3", r3_bounded_history_refuses, 3),
     ("C19-R4", r4_growth_keeps_records, 3),
     ("C19-R5", r5_query, 3),
     ("C19-R6", r6_update_time_is_recorded_unchanged, 2),
